@@ -237,3 +237,18 @@ V_ENSURES(g.route_system && g.route_sender == (const void *)sender && g.route_to
 V_ENSURES(V_IMP(sender != NULL, g_mod->stats.sent_msgs == V_OLD(g_mod->stats.sent_msgs) + 1))
 ;
 #endif
+
+#ifdef V_UNSUB_UNIT
+V_CONTRACT int m_map_free(m_map_t **m) V_REQUIRES(m == &g_mod->subscriptions && *m == (m_map_t *)g_tab) V_ASSIGNS(g_mod->subscriptions, g.mapfree_calls) V_ENSURES(V_RET == 0 && g_mod->subscriptions == NULL && g.mapfree_calls == V_OLD(g.mapfree_calls) + 1);
+V_CONTRACT
+int m_mod_ps_unsubscribe(m_mod_t *mod, const char *topic)
+V_REQUIRES(v_base_ok() && mod == g_mod && V_RW_OK(g_mod, sizeof(m_mod_t)) && v_state_valid(g_mod->state) && g_mod->ctx == g_ctx && (topic == NULL || topic == g_topic)
+           && g_mod->subscriptions == (m_map_t *)g_tab && v_map_ok_fn(g_tab) && g_tab->len > 0)
+V_ASSIGNS(V_G_MOD(mod): g_mod->tb.tokens, g_mod->stats.last_seen, g_mod->stats.action_ctr, g.fetch_calls, g.maprm_calls, g_tab->len, g_mod->subscriptions, g.mapfree_calls)
+/* keyed set: exactly one removal is attempted, under the caller's topic; a present subscription goes (the table itself when it was the last one), an absent one fails without effect */
+V_ENSURES(V_IMP(V_G_MOD(mod) && !(g_mod->flags & M_MOD_DENY_SUB) && topic != NULL && V_OLD(g_mod->tb.tokens) > 0, V_RET == g_maprm_ret && g.maprm_calls == V_OLD(g.maprm_calls) + 1
+                && g_tab->len == V_OLD(g_tab->len) - (g_maprm_ret == 0 ? 1 : 0) && g.mapfree_calls == V_OLD(g.mapfree_calls) + ((g_maprm_ret == 0 && g_tab->len == 0) ? 1 : 0)
+                && (g_mod->subscriptions == NULL) == (g_maprm_ret == 0 && g_tab->len == 0)))                                                  /*@C09.unsubscribe-removes-exactly-that-subscription-or-fails-without-effect*/
+V_ENSURES(V_IMP(!(V_G_MOD(mod) && !(g_mod->flags & M_MOD_DENY_SUB) && topic != NULL && V_OLD(g_mod->tb.tokens) > 0), V_RET < 0 && g.maprm_calls == V_OLD(g.maprm_calls)))
+;
+#endif
